@@ -1315,7 +1315,7 @@ std::ostream& expression_t::print(std::ostream& os, bool old) const
         if (get_type().is(Constants::DOUBLE)) {
             print_double(os, get_double_value());
         } else if (get_type().is_string()) {
-            os << get_string_value();
+            os << std::quoted(get_string_value());  // as it is written in the source: in quotes, backslashes escaped
         } else if (get_type().is_integer()) {
             os << std::get<int32_t>(data->value);
         } else {
@@ -1606,7 +1606,7 @@ std::ostream& expression_t::print(std::ostream& os, bool old) const
             get(1).print(os << "{", old) << "} -> {";
             get(2).print(os, old) << "}";
         }
-        get(0).print(os << "(\"", old) << "\")";
+        get(0).print(os << "(", old) << ")";
         break;
 
     case PO_CONTROL:
